@@ -403,13 +403,13 @@ Theorem cli_translate_gamma_feeds_back s out :
      known_class_theory (gamma_theory t) = None /\
      parse_theory_str out = PR_ok (gamma_theory t) /\ run_cli (Parse Theory) out = Stdout out).
 Proof.
-  cbn [run_cli run_translate]. intros E.
+  unfold run_cli; cbn [run_cli_fuel run_translate]. intros E.
   apply theory_bind_stdout in E. destruct E as (t & Et & E).
   apply print_theory_inj_stdout in E. subst out.
   exists t. split; [exact Et|]. split; [reflexivity|]. intros K.
   destruct (gamma_output_reparses t (image_theory_str s t Et) K) as (_ & K' & R).
   split; [exact K'|]. split; [exact R|].
-  cbn [run_cli run_parse]. unfold theory_from_file. rewrite R. reflexivity.
+  unfold run_cli; cbn [run_cli_fuel run_parse]. unfold theory_from_file. rewrite R. reflexivity.
 Qed.
 
 (* whatever `simplify` prints: IF the simplified theory is well-formed and outside the classes, it is
@@ -422,20 +422,21 @@ Theorem cli_simplify_feeds_back_partial pf st s out :
     (wf_theory g = true -> known_class_theory g = None ->
      parse_theory_str out = PR_ok g /\ run_cli (Parse Theory) out = Stdout out).
 Proof.
-  cbn [run_cli run_simplify]. intros E.
+  unfold run_cli; cbn [run_cli_fuel]; unfold run_simplify_fuel. intros E.
   apply theory_bind_stdout in E. destruct E as (t & Et & E).
+  fold (simplify_theory pf st t) in E.
   destruct (simplify_theory pf st t) as [g|r] eqn:Es; cbn [bind] in E.
   - apply print_theory_inj_stdout in E. subst out.
     exists t, g. split; [exact Et|]. split; [exact Es|]. split; [reflexivity|]. intros W K.
     pose proof (text_theory g W K) as R. split; [exact R|].
-    cbn [run_cli run_parse]. unfold theory_from_file. rewrite R. reflexivity.
+    unfold run_cli; cbn [run_cli_fuel run_parse]. unfold theory_from_file. rewrite R. reflexivity.
   - exfalso.
-    assert (Hn : forall t r, simplify_theory pf st t = Stop r -> r = Panic \/ r = OutOfFuel).
-    { clear. induction t as [|F t IH]; cbn [simplify_theory]; intros r; [discriminate|].
-      destruct (simplify_formula pf st F) as [G|r0] eqn:EF.
-      - destruct (simplify_theory pf st t) as [Gs|r1]; [discriminate|].
+    assert (Hn : forall t r, simplify_theory_fuel classic_fuel pf st t = Stop r -> r = Panic \/ r = OutOfFuel).
+    { clear. induction t as [|F t IH]; intros r; cbn [simplify_theory_fuel]; [discriminate|].
+      destruct (simplify_formula_fuel classic_fuel pf st F) as [G|r0] eqn:EF.
+      - destruct (simplify_theory_fuel classic_fuel pf st t) as [Gs|r1]; [discriminate|].
         intros [= <-]. apply IH; reflexivity.
-      - intros [= <-]. unfold simplify_formula in EF. destruct pf.
+      - intros [= <-]. unfold simplify_formula_fuel in EF. destruct pf.
         + destruct (StrategyCls.run_strategy_opt _ _ _ F); inversion EF; auto.
         + destruct (Strategy.run_strategy _ _ _ F); inversion EF; auto.
         + destruct (Strategy.run_strategy _ _ _ F); inversion EF; auto. }
